@@ -161,7 +161,7 @@ func (obj *SparseIntVector) APPEND(w *SparseIntVector) *SparseIntVector {
   return r
 }
 func (obj *SparseIntVector) ToSparseIntMatrix(n, m int) *SparseIntMatrix {
-  if n*m != obj.n {
+  if n < 0 || m < 0 || n*m != obj.n {
     panic("Matrix dimension does not fit input vector!")
   }
   v := NullSparseIntVector(obj.n)
